@@ -546,3 +546,64 @@ func TestC17_GridFirstUse(t *testing.T) {
 	}
 	h.RunCases(t, "C17.conc", cases, checkC17Conc)
 }
+
+// TestC17_GridManyBuilds: several goroutines build thousands of messages on one shared SP (the number of
+// generated identifiers crosses 4096 / 8192 / 16384), under the race detector; all IDs distinct.
+func TestC17_GridManyBuilds(t *testing.T) {
+	type manyCase struct {
+		Goroutines int `json:"goroutines"`
+		PerG       int `json:"perGoroutine"`
+	}
+	per := 2500
+	if h.Thorough() {
+		per = 9000
+	}
+	h.RunCases(t, "C17.many", []manyCase{{4, per}, {8, per / 2}}, func(c manyCase) h.Outcome {
+		o := h.Outcome{NonTrivial: true, Classes: []string{fmt.Sprintf("many:%dx%d", c.Goroutines, c.PerG)}}
+		sp := c17SP(0).Build()
+		ids := make([][]string, c.Goroutines)
+		var wg sync.WaitGroup
+		start := make(chan struct{})
+		for g := 0; g < c.Goroutines; g++ {
+			wg.Add(1)
+			go func(g int) {
+				defer wg.Done()
+				<-start
+				for i := 0; i < c.PerG; i++ {
+					var d *etree.Document
+					var err error
+					switch (i + g) % 3 {
+					case 0:
+						d, err = sp.BuildAuthRequestDocumentNoSig()
+					case 1:
+						d, err = sp.BuildLogoutRequestDocumentNoSig("n", "s")
+					default:
+						d, err = sp.BuildLogoutResponseDocumentNoSig("st", "r")
+					}
+					if err != nil {
+						ids[g] = append(ids[g], "!error: "+err.Error())
+						continue
+					}
+					ids[g] = append(ids[g], d.Root().SelectAttrValue("ID", ""))
+				}
+			}(g)
+		}
+		close(start)
+		wg.Wait()
+		seen := map[string]bool{}
+		for _, l := range ids {
+			for _, id := range l {
+				if !idRe.MatchString(id) {
+					o.Violation = h.V("concurrent-build/bad-id", "ID %q built concurrently is malformed", id)
+					return o
+				}
+				if seen[id] {
+					o.Violation = h.V("concurrent-build/id-repeat", "ID %q was produced twice by concurrent builders", id)
+					return o
+				}
+				seen[id] = true
+			}
+		}
+		return o
+	})
+}
